@@ -234,6 +234,12 @@ func (w *World) Run() {
 			w.execCompose(st)
 		case SCall:
 			w.execCall(st)
+		case SEnum:
+			if st.Name == "tamper" {
+				w.execTamper(i, st)
+			} else {
+				w.execEnum(i, st)
+			}
 		default:
 			w.T.Event("unknown step kind %q ignored", st.Op)
 		}
